@@ -1,12 +1,14 @@
 #!/bin/sh
 # evaluate every complete, not yet evaluated seeded mutation (4 in parallel); extra args are passed to seed_eval.py
 mkdir -p /tmp/w/seedlogs
+ROOT=${SEED_ROOT:-/tmp/seed}
+TAG=${SEED_TAG:-}
 for p in C01 C02 C03 C04 C05 C06 C08 C09 C10 C11 C12 C13 C14 C15 C16 C17 C18 C19 C20; do
   for k in 1 2; do
-    if [ -f /tmp/seed/$p/out/mut$k.diff ] && [ -f /tmp/seed/$p/out/demo$k.py ] && [ -f /tmp/seed/$p/out/meta$k.json ] && [ ! -f /verif/seeded/${p}_$k/meta.json ] && [ ! -f /tmp/w/seedlogs/${p}_$k.running ]; then
+    if [ -f $ROOT/$p/out/mut$k.diff ] && [ -f $ROOT/$p/out/demo$k.py ] && [ -f $ROOT/$p/out/meta$k.json ] && [ ! -f /verif/seeded/${p}_$TAG$k/meta.json ] && [ ! -f /tmp/w/seedlogs/${p}_$TAG$k.running ]; then
       echo "$p $k"
     fi
   done
 done > /tmp/w/seed_todo.txt
 cat /tmp/w/seed_todo.txt
-cat /tmp/w/seed_todo.txt | xargs -P 4 -L 1 sh -c 'touch /tmp/w/seedlogs/$0_$1.running; timeout 3000 /verif/tools/seed_eval.py $0 $1 '"$*"' > /tmp/w/seedlogs/$0_$1.log 2>&1; rm -f /tmp/w/seedlogs/$0_$1.running'
+cat /tmp/w/seed_todo.txt | xargs -P 4 -L 1 sh -c 'touch /tmp/w/seedlogs/$0_'"$TAG"'$1.running; timeout 3000 /verif/tools/seed_eval.py $0 $1 --root '"$ROOT"' --tag "'"$TAG"'" '"$*"' > /tmp/w/seedlogs/$0_'"$TAG"'$1.log 2>&1; rm -f /tmp/w/seedlogs/$0_'"$TAG"'$1.running'
